@@ -160,6 +160,12 @@ class Simulator(Computer, _mixins.CodeMixin):
             if not instruction.modes:
                 continue
 
+            if len(set(instruction.modes)) != len(instruction.modes):
+                raise InvalidModes(
+                    f"Instruction '{instruction}' addresses the modes "
+                    f"'{instruction.modes}', which should be distinct."
+                )
+
             for mode in instruction.modes:
                 if mode < 0 or mode >= d:
                     if d > 1:
@@ -231,6 +237,21 @@ class Simulator(Computer, _mixins.CodeMixin):
         self._validate_preparations_at_beginning(instructions)
 
         self._validate_measurements_at_end(instructions)
+
+    def _validate_measurements_with_shots_none(
+        self, instructions: List[Instruction], shots: Union[int, None]
+    ) -> None:
+        if shots is not None:
+            return
+
+        for instruction in instructions:
+            if isinstance(instruction, Measurement) and not isinstance(
+                instruction, self._measurement_classes_allowed_with_shots_none
+            ):
+                raise InvalidParameter(
+                    f"The measurement '{type(instruction).__name__}' instruction does "
+                    f"not support 'shots=None' using '{self.__class__.__name__}'."
+                )
 
     def _validate_instructions(self, instructions: List[Instruction], d: int) -> None:
         self._validate_instruction_existence(instructions)
@@ -430,6 +451,8 @@ class Simulator(Computer, _mixins.CodeMixin):
         d = self._try_to_infer_d_from_instructions(instructions)
 
         self._validate_instructions(instructions, d)
+
+        self._validate_measurements_with_shots_none(instructions, shots)
 
         if initial_state is not None:
             self._validate_initial_state(initial_state, d)
